@@ -181,3 +181,17 @@ def random_dotbracket(rng, n, ntypes):
                 s[p] = CLOSE[t]
                 opens -= 1
     return "".join(s)
+
+
+def bpseq_text_variants(text):
+    """The same BPSEQ rows as other programs and editors write them."""
+    rows = [l.split() for l in text.splitlines() if l.strip()]
+    w = max(5, max(len(r[0]) for r in rows) + 1) if rows else 5
+    return [
+        ("right-aligned-columns", "\n".join(f"{r[0]:>{w}} {r[1]} {r[2]:>{w}}" for r in rows) + "\n"),
+        ("trailing-blanks-and-tabs", "\n".join(" ".join(r) + ("  " if i % 2 else "\t") for i, r in enumerate(rows)) + "\n"),
+        ("windows-line-endings", "\r\n".join(" ".join(r) for r in rows) + "\r\n"),
+        ("tab-separated", "\n".join("\t".join(r) for r in rows) + "\n"),
+        ("blank-lines-in-the-middle", "\n\n".join(" ".join(r) for r in rows) + "\n\n"),
+        ("no-final-newline", "\n".join(" ".join(r) for r in rows)),
+    ]
